@@ -214,7 +214,11 @@ class C11(core.Check):
         if (io.canon_frame(tf), io.canon_stats(stats)) != before:
             F.append(('save-mutates', 'save modified the frame or the statistics it was given', before[0], io.canon_frame(tf)))
         try:
-            tf2, stats2 = io.quiet(torch_frame.load, path)
+            import warnings
+            with warnings.catch_warnings(record=True) as wlist:
+                warnings.simplefilter('always')
+                tf2, stats2 = torch_frame.load(path)
+            self._info['fallback'] = any('Weights only load failed' in str(w.message) for w in wlist)
         except Exception as e:
             F.append(('load-raises', f'torch_frame.load raises {type(e).__name__} on the file save just wrote: {e}',
                       'the saved frame', 'raises'))
@@ -465,6 +469,9 @@ class C11(core.Check):
             labs.append('is-view:' + str(bool(self._info.get('view'))))
             labs.append('save:' + ('ok' if isinstance(out.get('save'), dict) else 'raises'))
             labs.append('load:' + ('ok' if isinstance(out.get('load'), dict) else 'raises'))
+            if 'fallback' in self._info:
+                labs.append('torch.load:' + ('weights_only=False fallback (warning)' if self._info['fallback']
+                                             else 'weights_only=True (safe globals)'))
             if isinstance(out.get('load'), dict):
                 fr = out['load']['ok']['frame']
                 labs += [f'stype:{s}' for s, _ in fr['feats']]
@@ -561,6 +568,16 @@ class C11(core.Check):
                                 'all_raised': not loaded_at, 'loaded_at': loaded_at[:10],
                                 'exhaustive': len(offsets) == size,
                                 'calls': 'torch_frame.load' + (' and Dataset.materialize(path=...)' if with_mat else '')})
+            # outside C11's stated domain, logged only (DESIGN.md section 6): a feature-less frame with explicit num_rows
+            try:
+                e0 = torch_frame.TensorFrame({}, {}, num_rows=5)
+                p0 = os.path.join(tmp, 'featureless.pt')
+                io.quiet(torch_frame.save, e0, None, p0)
+                e1, _ = io.quiet(torch_frame.load, p0)
+                report['extra']['outside_domain_observations'] = {
+                    'feature-less TensorFrame({}, {}, num_rows=5) after save/load has num_rows': int(e1.num_rows)}
+            except Exception as e:
+                report['extra']['outside_domain_observations'] = {'feature-less frame': f'raises {type(e).__name__}'}
             main = results[0]
             report['extra']['truncation'] = {
                 'method': 'enumeration (fault injection on the implementation), not proof',
